@@ -12,7 +12,8 @@ ASSUMPTIONS = [
     "a separate stream compares the scanner with the regex crate on arbitrary brace/newline strings",
 ]
 
-FLOATS = [1.5, -0.25, 3.14159, 1e-7, 2.5e10 + 0.5, -123456.789]
+FLOATS = [1.5, -0.25, 3.14159, 1e-7, 2.5e10 + 0.5, -123456.789, 1e-17, -3.5e-20, 5e-324, 2.0 ** -60, -1e-300, 0.1 + 0.2, 123456789.125,
+          4.9e-320, 1.0000000000000002, -0.5, 1e-300, 1048576.0000000002]
 INTS = [0, 1, -1, 7, 2 ** 31 - 1, 2 ** 31, -2 ** 31, -2 ** 31 - 1, 2 ** 32, 2 ** 32 + 1, 3000000000, -3000000000, 2 ** 53, -2 ** 53, 2 ** 53 - 1,
         2 ** 40 + 3, 65536, 10 ** 15]
 STRS = ["", "a", "hello world", "ünï", "日本語", "q\"uote", "line\nbreak", "}}{{", "tab\t", "\\back", "emoji😀"]
@@ -29,7 +30,7 @@ def gen_tagged(rng, depth):
     if k == 5:
         return ["fo", rng.below(len(FLOATS))]
     if k == 6:
-        return ["fx", rng.pick([2, -3, 2 ** 31, 2 ** 40, 2 ** 53, 0])]
+        return ["fx", rng.pick([2, -3, 2 ** 31, 2 ** 40, 2 ** 53, 0, 2 ** 53 + 2, 2 ** 60, -(2 ** 63), 10 ** 21])]
     if k == 7:
         return ["str", rng.pick(STRS)]
     if k in (8, 9):
@@ -80,7 +81,8 @@ def to_tagged(v):
 def same_value(a, b):
     """numeric equality between int and integral float, structural otherwise"""
     if a[0] in ("int", "fx") and b[0] in ("int", "fx"):
-        return a[1] == b[1]
+        # beyond 2^53 a script prints the shortest digits that round-trip to the same double
+        return a[1] == b[1] or (abs(a[1]) > 2 ** 53 and float(a[1]) == float(b[1]))
     if a[0] != b[0]:
         return False
     if a[0] == "arr":
